@@ -136,6 +136,10 @@ def render_args(prog, callee, args, multiline=False, here_mod=None):
     return out
 
 
+def pathvar_name(path):
+    return "LP" + "".join(c if c.isalnum() else "_" for c in path)
+
+
 def render_stmt(prog, here_mod, k, st, in_class=False):
     kind = st[0]
     if kind == "var":
@@ -154,6 +158,8 @@ def render_stmt(prog, here_mod, k, st, in_class=False):
     if kind == "ho":
         return [f"r{k} = xu.call0({call_expr(prog, here_mod, st[1], st[2])})"]
     if kind == "load":
+        if len(st) > 2 and st[2] == "pathvar":
+            return [f"r{k} = dds.load({pathvar_name(st[1])})"]     # the path is a module-level pathlib.Path constant
         return [f"r{k} = dds.load({st[1]!r})"]
     if kind == "cls":
         c = prog["classes"][st[1]]
@@ -186,6 +192,10 @@ def render_func(prog, fi):
         for ln in render_stmt(prog, f["mod"], k, st):
             lines.append("    " + ln)
     parts = [repr(f["name"]), str(f.get("ver", 0))] + [p for p, _ in f["params"]] + [f"r{k}" for k in range(len(f["body"]))]
+    if "ind" in f:
+        # a statement that is inside (1) or just after (0) a loop: the two versions differ by indentation only
+        lines += ["    acc = 0", "    for _i in (0, 1):", "        acc += 1", ("        " if f["ind"] else "    ") + "acc += 10"]
+        parts.append("acc")
     tup = f"({', '.join(parts)},)"
     if f.get("ret") == "text":
         lines.append(f"    return repr({tup})")
@@ -228,6 +238,10 @@ def render_module(prog, mi, as_blocks=False):
                 if a[0] == "icall":
                     il = import_line(prog, mi, a[1], a[2])
                     if il and il not in imports:
+                        imports.append(il)
+            if st[0] == "load" and len(st) > 2 and st[2] == "pathvar":
+                for il in ("from pathlib import Path", f"{pathvar_name(st[1])} = Path({st[1]!r})"):
+                    if il not in imports:
                         imports.append(il)
             if st[0] == "var" and len(st) > 2 and st[2] == "modattr" and prog["vars"][st[1]]["mod"] != mi:
                 il = f"from {pkg} import {prog['mods'][prog['vars'][st[1]]['mod']]}"
@@ -451,7 +465,7 @@ class Interp(object):
         locs = self.run_body(f["body"], params)
         if is_data(f):
             self.stack.pop()
-        res = (f["name"], f.get("ver", 0)) + tuple(vals) + tuple(locs)
+        res = (f["name"], f.get("ver", 0)) + tuple(vals) + tuple(locs) + ((22 if f["ind"] else 12,) if "ind" in f else ())
         if f.get("ret") == "text":
             res = repr(res)
         elif f.get("ret") == "bytes":
@@ -598,6 +612,10 @@ def apply_edit(prog, ed):
         p["mods"][ed[1]] = ed[2]
     elif k == "setpath":       # E10
         p["funcs"][ed[1]]["data"] = ed[2]
+    elif k == "indent":        # one statement moves into / out of a loop: only the indentation of its line changes
+        p["funcs"][ed[1]]["ind"] = 1 - p["funcs"][ed[1]]["ind"]
+    elif k == "rename_fun":    # the function gets another name (definition and every reference): the old name disappears
+        p["funcs"][ed[1]]["name"] = ed[2]
     else:
         raise ValueError(ed)
     return p
@@ -608,7 +626,7 @@ def edit_target(ed):
     k = ed[0]
     if k == "setvar":
         return ("v", ed[1])
-    if k in ("bump", "pad", "setlit", "setpath"):
+    if k in ("bump", "pad", "setlit", "setpath", "rename_fun", "indent"):
         return ("f", ed[1])
     if k == "bumpcls":
         return ("c", ed[1])
